@@ -43,6 +43,7 @@ enum Act : uint8_t {
   A_NESTED_CTS,
   A_GATE, // spins until the harness releases the gate tasks
   A_PROGRAM, // runs program k on the executing thread
+  A_PHASED, // waits for phase 1, force-queues one child, waits for phase 2 (scripted shutdown race)
 };
 enum : uint8_t { F_FQ = 1, F_FUT = 2, F_CHILD = 4, F_GATE = 8, F_PROBE = 16, F_CONT = 32 };
 
@@ -156,7 +157,7 @@ struct Mon {
   std::atomic<long> futNotReady{0}, futChecked{0};
   std::atomic<long> maxOutstandingAtWait{0};
   std::atomic<long> gatesStarted{0}, programsDone{0};
-  std::atomic<int> release{0};
+  std::atomic<int> release{0}, phase{0}, phasedStarted{0}, phasedKidQueued{0};
   std::atomic<bool> poolDead{false}, poolDying{false};
   std::atomic<long> resizes{0}, resizeGrow{0}, resizeShrink{0}, resizeZero{0};
   std::atomic<long> tryWaitFalse{0};
